@@ -16,12 +16,14 @@ package connmgr
 // goroutines and audits the manager at quiescence against the harness ledger.
 
 import (
+	"bufio"
 	"context"
 	"crypto/sha1"
 	"encoding/json"
 	"fmt"
 	"log/slog"
 	"math/rand"
+	"os"
 	"path/filepath"
 	"sort"
 	"strings"
@@ -40,10 +42,13 @@ import (
 
 const vfC14Unit = 10 * time.Second // one model clock unit
 
+var vfC14OwnSegments = false // set by TestVerifC14Gates only (each harness test runs in its own process)
+
 // ---------------------------------------------------------------------------------------------
 // stub connections
 
 type vfC14Sink struct {
+	gate   *vfC14Gate // interference point control (nil: none)
 	mu     sync.Mutex
 	closed []string // connection names, one entry per Close/CloseWithError call
 	codes  []network.ConnErrorCode
@@ -85,17 +90,60 @@ type vfC14Conn struct {
 	sink         *vfC14Sink
 }
 
-func (c *vfC14Conn) RemotePeer() peer.ID           { return c.pid }
+func (c *vfC14Conn) RemotePeer() peer.ID {
+	c.sink.gate.callback(false) // trim() reads the peer of every connection it is about to close
+	return c.pid
+}
 func (c *vfC14Conn) RemoteMultiaddr() ma.Multiaddr { return c.addr }
 func (c *vfC14Conn) ID() string                    { return c.name }
 func (c *vfC14Conn) IsClosed() bool                { return false }
 func (c *vfC14Conn) Stat() network.ConnStats {
+	c.sink.gate.callback(true) // the comparison function looks at the connections of two tied peers
 	return network.ConnStats{Stats: network.Stats{Direction: c.dir}, NumStreams: c.nstr}
 }
 func (c *vfC14Conn) Close() error { c.sink.add(c.name, network.ConnNoError); return nil }
 func (c *vfC14Conn) CloseWithError(code network.ConnErrorCode) error {
+	c.sink.gate.callback(false)
 	c.sink.add(c.name, code)
 	return nil
+}
+
+// vfC14Gate turns the callbacks the manager makes on the stub connections during a trim into
+// interference points: Stat() is called by the comparison function, i.e. after the candidates were
+// collected and before the selection loop (two segment locks are held meanwhile); RemotePeer() and
+// CloseWithError() are called while the selected connections are being closed (no lock held).  At the
+// chosen callback another goroutine delivers a scripted burst of calls while the trim waits.
+type vfC14Gate struct {
+	armed           bool
+	nStat, nClose   int         // callbacks seen while armed
+	statAt, closeAt int         // 1-based callback at which the burst is delivered (0: never)
+	fire            func() bool // delivers the burst; false if a lock the burst needs is held by the trim
+	delivered       bool
+	blocked         bool
+}
+
+func (g *vfC14Gate) callback(stat bool) {
+	if g == nil || !g.armed {
+		return
+	}
+	hit := false
+	if stat {
+		g.nStat++
+		hit = g.nStat == g.statAt
+	} else {
+		g.nClose++
+		hit = g.nClose == g.closeAt
+	}
+	if !hit || g.delivered {
+		return
+	}
+	g.armed = false // callbacks made on behalf of the burst itself are not interference points
+	if g.fire() {
+		g.delivered = true
+	} else {
+		g.blocked = true
+	}
+	g.armed = true
 }
 
 // peer ids: the manager shards by the LAST byte of the id; p1, p2 and p4 share a segment, p3 has its
@@ -104,6 +152,9 @@ func vfC14PeerID(name string) peer.ID {
 	last := byte(0x07)
 	if name == "p3" {
 		last = 0x09
+	}
+	if vfC14OwnSegments {
+		last = name[len(name)-1] // the gate scenarios need every peer in its own segment
 	}
 	return peer.ID("vfC14-" + name + "-" + string([]byte{last}))
 }
@@ -146,11 +197,11 @@ type vfC14MState struct {
 	Ph    int
 }
 
-// layout printed by C14_MC!St: [ {peer: [kind, conns, tags, value, age, prot, decaying]}, connCount, phase, dph ]
+// layout printed by C14_MC!St: [ {peer: [kind, conns, tags, value, age, prot, decaying]}, connCount, phase, dph, trim in progress ]
 func vfC14ParseState(raw json.RawMessage) (vfC14MState, error) {
 	var st vfC14MState
 	var top []json.RawMessage
-	if err := json.Unmarshal(raw, &top); err != nil || len(top) != 4 {
+	if err := json.Unmarshal(raw, &top); err != nil || len(top) != 5 {
 		return st, fmt.Errorf("state layout: %v %s", err, string(raw))
 	}
 	var pm map[string][]json.RawMessage
@@ -209,6 +260,7 @@ type vfC14Sys struct {
 	lfirst map[string]time.Time       // Connected that opened the peer's current tracking epoch
 	lprot  map[string]map[string]bool // peer -> protection tags in force
 	protU  []string                   // protection tags ever used (for IsProtected(p, tag) probes)
+	skip   map[string]bool            // peers compare() leaves out (temporary entries a racing trim may or may not reach)
 }
 
 func vfC14New(cfg vfC14Cfg) (*vfC14Sys, error) {
@@ -517,6 +569,9 @@ func (s *vfC14Sys) compare(m vfC14MState) (string, string, any, any) {
 	}
 	now := s.clk.Now()
 	for _, p := range s.cfg.Peers {
+		if s.skip[p] {
+			continue
+		}
 		mp := m.Peers[p]
 		ti := s.cm.GetTagInfo(s.pid[p])
 		tracked := len(s.lconns[p]) > 0
@@ -531,7 +586,7 @@ func (s *vfC14Sys) compare(m vfC14MState) (string, string, any, any) {
 		}
 		if tracked {
 			if ti == nil {
-				return "tag-total", fmt.Sprintf("GetTagInfo(%s) is nil for a peer with %d connections", p, len(s.lconns[p])), mp.T, nil
+				return "peer-untracked", fmt.Sprintf("GetTagInfo(%s) is nil although Connected was delivered for %v and no Disconnected since", p, vfC14Keys(s.lconns[p])), mp.T, nil
 			}
 			if ti.Value != mp.V || fmt.Sprint(ti.Tags) != fmt.Sprint(mp.T) {
 				return "tag-total", fmt.Sprintf("tags of connected peer %s differ from what the tag operations imply", p),
@@ -1184,4 +1239,318 @@ func vfC14StressRound(t *testing.T, seed int64, phase int) (string, string, any,
 		}
 	}
 	return l2cls, l2what, l2exp, l2got, totalOps
+}
+
+// ---------------------------------------------------------------------------------------------
+// gate-driven interference inside a trim
+
+// vfC14Script is one interference scenario generated from the graph of the concurrent variant of the
+// spec (Collect ... foreign steps ... Select): after `prefix` a trim is started; `window` is delivered
+// at a Stat() callback (between the collection of the candidates and the selection), `post` at a
+// RemotePeer()/CloseWithError() callback (while the selected connections are closed).  `final` is the
+// model state after everything; peers in `mayprune` are temporary entries the racing trim may or may
+// not have reached.
+type vfC14Script struct {
+	ID       int             `json:"id"`
+	Entry    string          `json:"entry"` // "trim" (TrimOpenConns / the ticker's trim) or "force"
+	Prefix   []vfh.Op        `json:"prefix"`
+	Window   []vfh.Op        `json:"window"`
+	Post     []vfh.Op        `json:"post"`
+	Final    json.RawMessage `json:"final"`
+	MayPrune []string        `json:"mayprune"`
+}
+
+func vfC14LoadScripts(path string) (map[string]any, []vfC14Script, error) {
+	f, err := os.Open(path)
+	if err != nil {
+		return nil, nil, err
+	}
+	defer f.Close()
+	sc := bufio.NewScanner(f)
+	sc.Buffer(make([]byte, 1<<20), 1<<28)
+	var hdr vfh.Header
+	var out []vfC14Script
+	first := true
+	for sc.Scan() {
+		if len(sc.Bytes()) == 0 {
+			continue
+		}
+		if first {
+			first = false
+			if err := json.Unmarshal(sc.Bytes(), &hdr); err != nil {
+				return nil, nil, err
+			}
+			continue
+		}
+		var s vfC14Script
+		if err := json.Unmarshal(sc.Bytes(), &s); err != nil {
+			return nil, nil, err
+		}
+		out = append(out, s)
+	}
+	return hdr.Header, out, sc.Err()
+}
+
+// gateApply performs one step of a burst (on the delivering goroutine) and keeps the ledger.
+func (s *vfC14Sys) gateApply(op vfh.Op) {
+	if op.Name() == "trim" {
+		s.cm.trim() // the ticker's path: not serialised with TrimOpenConns by trimMutex
+		return
+	}
+	s.step(op) // notifications, tag and protection calls: none of them looks at the sink
+}
+
+// vfC14RunScript executes one script with the burst delivered at the k-th callback of the chosen kind
+// (k = 0: never, a dry run that only counts the callbacks).  Must run inside a synctest bubble.
+func vfC14RunScript(cfg vfC14Cfg, sc vfC14Script, k int, useTicker bool) (status string, nStat, nClose int, mm *vfh.Mismatch) {
+	sys, err := vfC14New(cfg)
+	if err != nil {
+		return "MACHINERY: " + err.Error(), 0, 0, nil
+	}
+	defer sys.close()
+	synctest.Wait()
+	for _, op := range sc.Prefix {
+		if cls, _, _, _ := sys.step(op); cls != "" {
+			return "prefix-diverged", 0, 0, nil // sequential disagreements are the replay test's business
+		}
+	}
+	burst, atStat := sc.Window, true
+	if len(burst) == 0 {
+		burst, atStat = sc.Post, false
+	}
+	touched := map[string]bool{}
+	for _, op := range burst {
+		if p := op.S("p"); p != "" {
+			touched[p] = true
+		}
+	}
+	pre := sys.pre(sys.clk.Now())
+	sys.sink.take()
+	g := &vfC14Gate{}
+	if atStat {
+		g.statAt = k
+	} else {
+		g.closeAt = k
+	}
+	g.fire = func() bool {
+		// the trim waits inside a callback; a burst step on a peer whose segment the trim holds right now
+		// could not run before the trim goes on: such a point is not usable for this burst
+		for _, op := range burst {
+			if op.Name() == "trim" {
+				for _, seg := range sys.cm.segments.buckets {
+					if !seg.TryLock() {
+						return false
+					}
+					seg.Unlock()
+				}
+			} else if p := op.S("p"); p != "" && op.Name() != "protect" && op.Name() != "unprotect" {
+				seg := sys.cm.segments.get(sys.pid[p])
+				if !seg.TryLock() {
+					return false
+				}
+				seg.Unlock()
+			}
+		}
+		done := make(chan struct{})
+		go func() { // "the network": another goroutine delivers the burst while the trim is parked
+			defer close(done)
+			for _, op := range burst {
+				sys.gateApply(op)
+			}
+		}()
+		<-done
+		return true
+	}
+	sys.sink.gate = g
+	g.armed = true
+	switch {
+	case sc.Entry == "force":
+		sys.cm.ForceTrim()
+	case useTicker:
+		sys.cm.trim()
+	default:
+		sys.cm.TrimOpenConns(context.Background())
+	}
+	g.armed = false
+	sys.sink.gate = nil
+	synctest.Wait()
+	nStat, nClose = g.nStat, g.nClose
+	if k == 0 {
+		return "dry", nStat, nClose, nil
+	}
+	if !g.delivered {
+		if g.blocked {
+			return "blocked", nStat, nClose, nil
+		}
+		return "not-reached", nStat, nClose, nil
+	}
+	fail := func(cls, what string, exp, got any) (string, int, int, *vfh.Mismatch) {
+		all := append(append(append([]vfh.Op{}, sc.Prefix...), vfh.Op{"name": "BEGIN " + sc.Entry, "burst_at_callback": k, "stat_callback": atStat, "ticker_path": useTicker}), burst...)
+		return "mismatch", nStat, nClose, &vfh.Mismatch{Class: cls, What: what, Walk: sc.ID, Step: k, Expected: exp, Got: got, Prefix: all,
+			Cfg: map[string]any{"instance": cfg.Name, "conf": cfg, "script": sc.ID, "entry": sc.Entry, "window": sc.Window, "post": sc.Post}}
+	}
+	// (1) peers protected / inside grace during the whole trim and not touched by the burst are never closed
+	closed, _ := sys.sink.take()
+	if sc.Entry != "force" {
+		for _, c := range closed {
+			p := sys.conns[c].pname
+			if touched[p] {
+				continue
+			}
+			if pre.prot[p] {
+				return fail("trim-closed-protected", fmt.Sprintf("%s closed although %s was protected throughout the trim", c, p), nil, closed)
+			}
+			if pre.grace[p] {
+				return fail("trim-closed-in-grace", fmt.Sprintf("%s closed although %s was inside its grace period throughout the trim", c, p), nil, closed)
+			}
+		}
+	}
+	// (2) the public view equals what the delivered calls imply (the model state after the whole script)
+	m, err := vfC14ParseState(sc.Final)
+	if err != nil {
+		return "MACHINERY: " + err.Error(), nStat, nClose, nil
+	}
+	sys.skip = map[string]bool{}
+	for _, p := range sc.MayPrune {
+		sys.skip[p] = true
+	}
+	cls, what, exp, got := sys.compare(m)
+	if cls == "MACHINERY" {
+		return "MACHINERY: " + what, nStat, nClose, nil
+	}
+	if cls == "" || strings.HasPrefix(cls, "L2:") {
+		if c2, w2, e2, g2 := sys.compareLedger(); c2 != "" {
+			cls, what, exp, got = c2, w2, e2, g2
+		}
+	}
+	if cls != "" && !strings.HasPrefix(cls, "L2:") {
+		return fail(cls, "after a burst delivered inside a trim: "+what, exp, got)
+	}
+	l2 := cls
+	// (3) every later Disconnected is honoured: the manager ends up empty
+	for _, p := range sys.cfg.Peers {
+		for _, c := range vfC14Keys(sys.lconns[p]) {
+			sys.step(vfh.Op{"name": "disconnected", "c": c})
+		}
+	}
+	if n := sys.cm.GetInfo().ConnCount; n != 0 {
+		return fail("conn-count", "ConnCount after a burst inside a trim and the Disconnected of every connection announced so far", 0, n)
+	}
+	for _, p := range sys.cfg.Peers {
+		if ti := sys.cm.GetTagInfo(sys.pid[p]); ti != nil && len(ti.Conns) != 0 {
+			return fail("conn-count", fmt.Sprintf("%s still has tracked connections after every Disconnected was delivered", p), 0, len(ti.Conns))
+		}
+	}
+	if l2 != "" {
+		return "l2:" + l2, nStat, nClose, nil
+	}
+	return "ok", nStat, nClose, nil
+}
+
+func TestVerifC14Gates(t *testing.T) {
+	vfC14Silence()
+	vfC14OwnSegments = true
+	res := vfh.NewResult()
+	defer func() {
+		if err := res.Write(); err != nil {
+			t.Fatal(err)
+		}
+	}()
+	res.Rule = "one case = one (interference script, callback index) pair: the script's burst (1-2 notifications / tag / protection calls or a second trim, generated from the concurrent variant of the spec) is delivered by another goroutine at that Stat() (between candidate collection and selection) or RemotePeer()/CloseWithError() (while closing) callback of a TrimOpenConns / ticker trim / ForceTrim; every callback index seen in a dry run is used; afterwards ConnCount, every peer's GetTagInfo and IsProtected must equal the model state, peers protected or in grace throughout must not have been closed, and after the Disconnected of every announced connection the manager must be empty"
+	files, _ := filepath.Glob(filepath.Join(vfh.In(), "*.jsonl"))
+	if len(files) == 0 {
+		t.Fatalf("no script files in %q", vfh.In())
+	}
+	sort.Strings(files)
+	var mu sync.Mutex
+	var l1 []vfh.Mismatch
+	machinery := ""
+	const shards = 8
+	t.Run("scripts", func(t *testing.T) {
+		for _, f := range files {
+			hdr, scripts, err := vfC14LoadScripts(f)
+			if err != nil {
+				t.Fatalf("%s: %v", f, err)
+			}
+			cfg, err := vfC14LoadCfg(hdr)
+			if err != nil {
+				t.Fatalf("%s: %v", f, err)
+			}
+			for sh := 0; sh < shards; sh++ {
+				t.Run(fmt.Sprintf("%s-%d", cfg.Name, sh), func(t *testing.T) {
+					t.Parallel()
+					stats := map[string]int{}
+					for i := sh; i < len(scripts); i += shards {
+						sc := scripts[i]
+						useTicker := sc.ID%2 == 1
+						var nStat, nClose int
+						synctest.Test(t, func(t *testing.T) {
+							_, nStat, nClose, _ = vfC14RunScript(cfg, sc, 0, useTicker)
+						})
+						n := nStat
+						if len(sc.Window) == 0 {
+							n = nClose
+						}
+						stats["scripts"]++
+						realised := false
+						for k := 1; k <= n; k++ {
+							var status string
+							var mm *vfh.Mismatch
+							synctest.Test(t, func(t *testing.T) {
+								status, _, _, mm = vfC14RunScript(cfg, sc, k, useTicker)
+							})
+							res.Count(1, len(sc.Prefix)+len(sc.Window)+len(sc.Post)+1)
+							switch {
+							case strings.HasPrefix(status, "MACHINERY"):
+								mu.Lock()
+								machinery = fmt.Sprintf("script %d k=%d: %s", sc.ID, k, status)
+								mu.Unlock()
+							case status == "mismatch":
+								mu.Lock()
+								if len(l1) < 400 {
+									l1 = append(l1, *mm)
+								}
+								mu.Unlock()
+								realised = true
+							case status == "ok" || strings.HasPrefix(status, "l2:"):
+								realised = true
+								res.Case(fmt.Sprintf("%s|%d|%d", cfg.Name, sc.ID, k))
+								if status != "ok" {
+									stats["runs_with_L2_divergence"]++
+								}
+								stats["runs_delivered_"+sc.Entry]++
+							default:
+								stats["runs_"+status]++
+							}
+						}
+						if realised {
+							stats["scripts_realised"]++
+							if len(sc.Window) == 2 && sc.Window[0].Name() == "disconnected" && sc.Window[1].Name() == "connected" && sc.Window[0].S("p") == sc.Window[1].S("p") {
+								stats["went_and_came_back_realised"]++
+							}
+						}
+					}
+					for k, v := range stats {
+						res.Inc(k, v)
+					}
+				})
+			}
+		}
+	})
+	if machinery != "" {
+		t.Errorf("harness machinery: %s", machinery)
+	}
+	sort.SliceStable(l1, func(i, j int) bool {
+		a, b := l1[i], l1[j]
+		if a.Class != b.Class {
+			return a.Class < b.Class
+		}
+		if a.Walk != b.Walk {
+			return a.Walk < b.Walk
+		}
+		return a.Step < b.Step
+	})
+	for _, m := range vfC14PerClass(l1, 6) {
+		res.AddMismatch(m)
+	}
 }
